@@ -176,8 +176,8 @@ def run_batch(binary, kind, seed, first, count, nworkers, env=None, chunk=200, e
     lock = threading.Lock()
 
     def cmdline(a, n):
-        if kind == "RUNS":
-            return "RUNS %d %d %d %s" % (seed, a, n, extra)
+        if kind in ("RUNS", "LIGHT"):  # seeded kinds
+            return "%s %d %d %d %s" % (kind, seed, a, n, extra)
         return "%s %d %d %s" % (kind, a, n, extra)
 
     def loop(wid):
@@ -364,8 +364,8 @@ def process_candidates(prop, engine, binary, cands, get_plan, env=None, header=N
         r1 = exec_plan(binary, plan, env, timeout=exec_timeout, header=hdr, args=args)
         r2 = exec_plan(binary, plan, env, timeout=exec_timeout, header=hdr, args=args)
         if r1["sig"] != sig or r2["sig"] != sig or r1["hash"] != r2["hash"]:
-            harness_errors.append("candidate %s (run %s) did not reproduce in a fresh process: got %s/%s hashes %s/%s" %
-                                  (sig, c["run"], r1["sig"], r2["sig"], r1["hash"], r2["hash"]))
+            harness_errors.append("candidate %s (run %s) did not reproduce in a fresh process: got %s/%s hashes %s/%s; stderr of the original: %s" %
+                                  (sig, c["run"], r1["sig"], r2["sig"], r1["hash"], r2["hash"], (c.get("stderr") or "")[-600:].replace("\n", " | ")))
             continue
         kf = [k for k in open_known if k.get("signature") == sig]
         if kf:
